@@ -411,3 +411,28 @@ def r6(rr, repo):
                     all(any(isinstance(a, ast.Call) and U(a.func) in ('hide_uri_users_and_pwds', 'hide_uri_pwds') for a in ancestors_of(u) if a is not c) for u in uses)
                 rr.ob(f'{fname}: a caught exception is logged through the mask', masked, mod, c, witness=U(c)[:100], key=f'exc-logged-masked|{fname}|{U(c)[:50]}')
     rr.floor('log calls of caught exception objects in Filter.run / DLCache.ensure', len(sites), 3)
+
+
+@rule('C15.R7', "a library that is handed the URI does not print it either: vidgear's WriteGear() and its helper module (which tests the output text as if it were a directory and warns with that text on a logger of "
+                "its own) are quietened around the construction of the writer - both loggers are raised above WARNING before WriteGear(output=...) is called and restored after it")
+def r7(rr, repo):
+    VO = 'openfilter/filter_runtime/filters/video_out.py'
+    mod, init = repo.find(f'{VO}::VideoWriter.__init__')
+    _, nw = repo.find(f'{VO}::VideoWriter.new_writer')
+    quiet = [n for n in walk_scope(init) if isinstance(n, ast.Assign) and any(U(t) == 'self.stfu' for t in n.targets) and isinstance(n.value, ast.Lambda)
+             and not any(isinstance(a, ast.ExceptHandler) for a in ancestors_of(n))]      # the fallback for "vidgear's modules cannot be imported" has nothing to quieten
+    rr.floor('definitions of the quietening callback', len(quiet), 1, mod, init)
+    for n in quiet:
+        sets = [c for c in ast.walk(n.value) if isinstance(c, ast.Call) and isinstance(c.func, ast.Attribute) and c.func.attr == 'setLevel' and c.args]
+        lv = {U(c.func.value): U(c.args[0]).split('.')[-1] for c in sets}
+        for lg in ('writegear.logger', 'helper.logger'):
+            rr.ob(f'{lg} is raised to ERROR or above while the writer is constructed', lv.get(lg) in ('ERROR', 'CRITICAL', 'FATAL'), mod, n, witness=f'levels set by stfu: {lv}', key=f'quiet|{lg}')
+    makes = [c for c in q.calls_in(nw) if U(c.func).endswith('WriteGear')]
+    rr.floor('constructions of the vidgear writer', len(makes), 1, mod, nw)
+    for c in makes:
+        st = q.enclosing_stmt(c)
+        from .zmq import stmt_list_containing
+        _, lst, idx = stmt_list_containing(st)
+        before = idx > 0 and U(lst[idx - 1]).strip() == 'self.stfu()'
+        after = idx + 1 < len(lst) and U(lst[idx + 1]).strip() == 'self.unstfu()'
+        rr.ob('WriteGear(...) is constructed between stfu() and unstfu()', before and after, mod, c, witness=f'before: {U(lst[idx - 1])[:40] if idx else None}; after: {U(lst[idx + 1])[:40] if idx + 1 < len(lst) else None}', key='writer-constructed-quiet')
